@@ -21,7 +21,14 @@ import (
 	"time"
 )
 
-const repo = "/repo"
+// repo is the tree under check: /repo, or a scratch worktree of it (VERIF_REPO) when a candidate change is tried out
+// without touching /repo (development aid; the registered commands never set it).
+var repo = func() string {
+	if r := os.Getenv("VERIF_REPO"); r != "" {
+		return r
+	}
+	return "/repo"
+}()
 
 var verifDir = "/verif"
 
